@@ -16,17 +16,21 @@ import (
 // and the per-run trace hashes must be byte-identical.
 func selftest(ids []string) int {
 	if len(ids) == 0 {
-		for id, p := range props {
-			if p.Tier == "S" {
-				ids = append(ids, id)
-			}
+		for id := range props {
+			ids = append(ids, id)
 		}
 		sort.Strings(ids)
 	}
-	sc := prepare(true, "./cmd/worker", true)
-	defer sc.cleanup()
+	scS := prepare(true, "./cmd/worker", true)
+	defer scS.cleanup()
+	scH := prepare(true, "./cmd/workerh", false)
+	defer scH.cleanup()
 	bad := 0
 	for _, id := range ids {
+		sc := scS
+		if props[id] != nil && props[id].Tier == "H" {
+			sc = scH
+		}
 		type variant struct {
 			bin  string
 			proc int
@@ -36,7 +40,7 @@ func selftest(ids []string) int {
 			for k := 0; k < 4; k++ {
 				vs = append(vs, variant{sc.plain, gmp})
 			}
-			for k := 0; k < 1; k++ {
+			if sc.race != "" {
 				vs = append(vs, variant{sc.race, gmp})
 			}
 		}
@@ -77,7 +81,7 @@ func selftest(ids []string) int {
 		}
 		firstRace := -1
 		for i, v := range vs {
-			if v.bin == sc.race && firstRace < 0 {
+			if sc.race != "" && v.bin == sc.race && firstRace < 0 {
 				firstRace = i
 			}
 		}
@@ -94,7 +98,11 @@ func selftest(ids []string) int {
 			}
 		}
 		if ok {
-			fmt.Printf("selftest %s: %d processes x 400 seeds identical (plain and -race, GOMAXPROCS 1/4/16)\n", id, len(vs))
+			kinds := "plain and -race"
+			if sc.race == "" {
+				kinds = "plain"
+			}
+			fmt.Printf("selftest %s: %d processes x 400 seeds identical (%s, GOMAXPROCS 1/4/16)\n", id, len(vs), kinds)
 		} else {
 			bad++
 		}
